@@ -413,6 +413,39 @@ func bridgeFacts(c *Ctx) error {
 	}
 	sb.WriteString("\n")
 
+	// block hooks of the two modules (the model treats a block step as the identity) and every use of the block height
+	// or time in their keepers / types (none expected)
+	var hooks []string
+	for _, mod := range []string{"oracle", "ethbridge"} {
+		files, err := c.ParseDir("x/" + mod)
+		if err != nil {
+			return err
+		}
+		for _, fn := range []string{"BeginBlock", "EndBlock"} {
+			body := "?"
+			if fd := FindFunc(files, "AppModule", fn); fd != nil {
+				body = c.Src(fd.Body)
+			}
+			hooks = append(hooks, mod+"."+fn+" "+body)
+		}
+	}
+	fmt.Fprintf(&sb, "def blockHooks : List String := %s\n", leanList(hooks))
+	var heightUses []string
+	for _, group := range [][]*ast.File{okeeper, otypes, ekeeper, etypes} {
+		for _, f := range group {
+			ast.Inspect(f, func(m ast.Node) bool {
+				if se, ok := m.(*ast.SelectorExpr); ok {
+					switch se.Sel.Name {
+					case "BlockHeight", "BlockTime", "BlockHeader":
+						heightUses = append(heightUses, c.Fset.Position(se.Pos()).Filename[len(c.Repo)+1:]+": "+c.Src(se))
+					}
+				}
+				return true
+			})
+		}
+	}
+	fmt.Fprintf(&sb, "def heightUses : List String := %s\n\n", leanList(heightUses))
+
 	sb.WriteString("def unreadable : List String := " + leanList(unreadable) + "\n\nend Sif.Generated.BridgeConsts\n")
 	return c.WriteLean("BridgeConsts", sb.String())
 }
